@@ -112,7 +112,9 @@ class PrettyPrintConfig:
             return (
                 not self.outputs or
                 (starred == '/cells/*/outputs/*/execution_count' and
-                 not self.details))
+                 not self.details) or
+                (starred.startswith('/cells/*/outputs/*/metadata') and
+                 not self.metadata))
         # (only the execution count: a change of e.g. the cell type is
         # not a detail, and the differ reports it whatever is ignored)
         if starred.startswith('/cells/*/execution_count'):
@@ -599,6 +601,8 @@ def pretty_print_output(i, output, prefix="", config=DefaultConfig):
                  "name", "text", "data",
                  "ename", "evalue", "traceback")
     for k in item_keys:
+        if k == "execution_count" and not config.details:
+            continue
         v = output.get(k)
         if v:
             pretty_print_item(k, v, oprefix, config)
@@ -606,7 +610,7 @@ def pretty_print_output(i, output, prefix="", config=DefaultConfig):
     exclude_keys = {"output_type", "metadata", "traceback"} | set(item_keys)
 
     metadata = output.get("metadata")
-    if metadata:
+    if metadata and config.metadata:
         known_output_metadata_keys = {"isolated"}
         pretty_print_metadata(metadata, known_output_metadata_keys, oprefix, config)
 
